@@ -721,14 +721,24 @@ def tupType (args : List Ty) : Ty := makeTupleTy args 0
 section
 variable {m : Type → Type} [Monad m] [MonadLiftT Res m]
 
-/-- header of the table created by `tab(n, a1)` from the first evaluation of `a1`. -/
+/-- `Type::levelUp()` as the C++ computes it: `Type(_major, _minor, _level + 1)` with `TypeLevel = uint8_t`, so the level
+after 255 is 0. (`Ty.levelUp` of Model/Basic.lean is the same below the limit: `levelUp8_eq`.) -/
+def levelUp8 (t : Ty) : Ty := { t with level := (t.level + 1) % 256 }
+
+/-- `Type::levelDown()`: `_level - 1` in `uint8_t` (the level before 0 is 255) -/
+def levelDown8 (t : Ty) : Ty := { t with level := (t.level + 255) % 256 }
+
+/-- header of the table created by `tab(n, a1)` from the first evaluation of `a1`. The dimension test is
+`a1.type().level() == TYPE_LEVEL_MAX - 1` (an equality): an element of 255 dimensions — which only `tab(<null count>, x)`
+can produce, that branch has no dimension test at all — passes it, and the header's level wraps to 0
+(finding C09.tab.levelWrap: the result is a `Value` typed as a level-0 integer / … that holds a Collection). -/
 def tabHeader (a1 : Val) : Res (Ty × List Ty) :=
   if a1.type.major == .none || a1.type == { major := .tup } then .err Gen.EXC_RT_COMPOUND_OPAQUE
   else if a1.type.level == Gen.TYPE_LEVEL_MAX - 1 then .err Gen.EXC_RT_OUT_OF_DIMENSION
   else match a1 with
     | .tup decl _ => .ok (makeTupleTy decl 1, decl)
-    | .tab t decl _ => if t.major == .tup then .ok (makeTupleTy decl (t.level + 1), decl) else .ok (t.levelUp, [])
-    | _ => .ok (a1.type.levelUp, [])
+    | .tab t decl _ => if t.major == .tup then .ok (makeTupleTy decl ((t.level + 1) % 256), decl) else .ok (levelUp8 t, [])
+    | _ => .ok (levelUp8 a1.type, [])
 
 /-- the `while (--n > 0)` part: `k` further evaluations of the element expression, each of which
 must have the item type. -/
@@ -748,14 +758,14 @@ def biTab (args : List (Thunk m)) : m Val := do
     let a0 ← t0
     if a0.isNull then
       let a1 ← t1
-      return .null a1.type.levelUp
+      return .null (levelUp8 a1.type)       -- no dimension test in this branch; uint8 arithmetic
     let n ← liftR a0.asInt
     if n < 0 then rerr Gen.EXC_RT_INDEX_RANGE_S else
     if n > 1048576 then liftR .unmodelled else
     let a1 ← t1
     let (t, decl) ← liftR (tabHeader a1)
     if n == 0 then return .tab t decl []
-    let es ← tabFill t1 t.levelDown (idxOf n - 1) [a1]
+    let es ← tabFill t1 (levelDown8 t) (idxOf n - 1) [a1]     -- `item_type = tab->table_type().levelDown()`
     return .tab t decl es
   | _ => argTypeErr
 
@@ -788,6 +798,85 @@ def setItem (recv : Thunk m) (n : Nat) (arg : Thunk m) : m (Val × Val) := do
   let a ← arg
   liftR (setItemV v (itemIndex no) a)
 
+end
+
+/-! ### the parse-time lock of a table traversed by `forall`
+
+statement_forall.cpp `parse_clause`: while the body is parsed the symbol of the fetched expression (if it has one) is
+`locked`, and the iterator "inherits constness of the target" (its `_locked` is set to the target's previous flag); both
+are restored when the clause ends, normally or by a ParseError. member_{concat,put,delete,insert,set}.cpp `parse`: the very
+first test is `if (exp->symbolId() != nid && ctx.getSymbol(exp->symbolId()).locked()) throw CONST_VIOLATION`;
+member_at.cpp / member_count.cpp have no such test. `Expression::symbolId()` is the id of a plain variable, is passed
+through by `.at / .put / .insert / .delete / .concat / .set@ / @N` (member_*.h, expression_item.h: `return _exp->symbolId()`)
+and is `nid` for every other expression (`.count()`, literals, calls, operators). -/
+
+/-- the receiver expression of a member call, as far as `symbolId()` is concerned -/
+inductive RecvExp
+  | var (sym : Nat)
+  | chain (inner : RecvExp)      -- inner.at(…) / inner.put(…) / … / inner@N
+  | other
+  deriving Repr
+
+def RecvExp.symbolId : RecvExp → Option Nat
+  | .var s => some s
+  | .chain e => e.symbolId
+  | .other => none
+
+/-- the seven built-in members; `set` is `set@N` -/
+inductive MemberOp
+  | m (m : Member)
+  | set
+  deriving DecidableEq, Repr
+
+/-- the members whose `parse()` tests the lock (= the members that change their receiver) -/
+def MemberOp.mutating : MemberOp → Bool
+  | .m .concat | .m .put | .m .delete | .m .insert | .set => true
+  | .m .at | .m .count => false
+
+/-- the `locked` argument of `acceptMember` / `acceptSet` for a receiver expression under the flags `fl` -/
+def recvLocked (recv : RecvExp) (fl : Nat → Bool) : Bool :=
+  match recv.symbolId with
+  | some s => fl s
+  | none => false
+
+/-- the head test of the member's `parse()`: is the call refused with CONST_VIOLATION -/
+def lockRefuses (op : MemberOp) (recv : RecvExp) (fl : Nat → Bool) : Bool :=
+  op.mutating && recvLocked recv fl
+
+/-- flags while the body of `forall <iter> in <target>` is parsed: `es.locked(true); vt.locked(locked_ex_bak)` when the
+fetched expression has a symbol, unchanged otherwise -/
+def forallEnter (iter : Nat) (target : Option Nat) (fl : Nat → Bool) : Nat → Bool :=
+  match target with
+  | some sid => fun s => if s == iter then fl sid else if s == sid then true else fl s
+  | none => fl
+
+/-- flags after the clause (normal end and `catch (ParseError&)` alike):
+`getSymbol(sid).locked(locked_ex_bak); vt.locked(locked_vt_bak)` with the values saved at entry (`before`) -/
+def forallLeave (iter : Nat) (target : Option Nat) (before cur : Nat → Bool) : Nat → Bool :=
+  fun s => if s == iter then before iter
+    else if target == some s then before s
+    else cur s
+
+/-- a body as far as the lock is concerned: member calls and nested `forall` -/
+inductive LStmt
+  | call (op : MemberOp) (recv : RecvExp)
+  | loop (iter : Nat) (target : RecvExp) (body : List LStmt)
+
+mutual
+  /-- parse one statement under the flags `fl`: `none` = a call was refused with CONST_VIOLATION, `some fl'` = accepted,
+  flags afterwards -/
+  def lockStmt : LStmt → (Nat → Bool) → Option (Nat → Bool)
+    | .call op recv, fl => if lockRefuses op recv fl then none else some fl
+    | .loop iter target body, fl =>
+      match lockBody body (forallEnter iter target.symbolId fl) with
+      | none => none
+      | some cur => some (forallLeave iter target.symbolId fl cur)
+  def lockBody : List LStmt → (Nat → Bool) → Option (Nat → Bool)
+    | [], fl => some fl
+    | st :: rest, fl =>
+      match lockStmt st fl with
+      | none => none
+      | some fl' => lockBody rest fl'
 end
 
 /-! ### forall -/
